@@ -1,6 +1,7 @@
 import Driver.Proto
 import ScrapliModel.Lemmas.PrivSession
 import ScrapliModel.PrivFault
+import ScrapliModel.PrivOptions
 namespace Driver.C04
 namespace C04
 open Scrapli Scrapli.Priv
@@ -46,18 +47,41 @@ def parseLevels (s : String) : Option (List LvRec) :=
 def parseList (s : String) : Option (List Bytes) :=
   if s == "_" then some [] else (s.splitOn "+").mapM fromHex
 
-def parseOp (s : String) : Option Op :=
+/-- an option list: tokens joined by `/`: `i` = an option of another layer (ignored by
+`network.NewOperation`), `l<hex>` = `WithPrivilegeLevel`; `n` = no options -/
+def parseOpts (s : String) : Option (List Opt) :=
+  if s == "n" then some [] else
+    (s.splitOn "/").mapM fun t =>
+      if t == "i" then some Opt.ignored
+      else if t.startsWith "l" then (fromHex (t.drop 1).toString).map Opt.level
+      else none
+
+/-- the privilege-level field of an operation: plain hex, or an option list. `spec = false`: what
+the code's `NewOperation` loop (as regenerated from the source) makes of the list; `spec = true`:
+what the property demands — the explicit level wherever it stands (the last one given) -/
+def parsePriv (spec : Bool) (s : String) : Option Bytes :=
+  if s == "n" || s.startsWith "i" || s.startsWith "l" then do
+    let opts ← parseOpts s
+    if spec then
+      some ((opts.filterMap fun o => match o with | .level x => some x | _ => none).getLast?.getD [])
+    else
+      match newOperation opts with
+      | .ok p => some p
+      | .error _ => none
+  else fromHex s
+
+def parseOp (spec : Bool) (s : String) : Option Op :=
   match s.splitOn ":" with
   | ["cmd", a] => do some (.sendCommand (← fromHex a))
   | ["cmds", l] => do some (.sendCommands (← parseList l))
-  | ["cfgs", l, p] => do some (.sendConfigs (← parseList l) (← fromHex p))
-  | ["cfg", a, p] => do some (.sendConfig (← fromHex a) (← fromHex p))
+  | ["cfgs", l, p] => do some (.sendConfigs (← parseList l) (← parsePriv spec p))
+  | ["cfg", a, p] => do some (.sendConfig (← fromHex a) (← parsePriv spec p))
   | ["acq", a] => do some (.acquirePriv (← fromHex a))
-  | ["int", l, p] => do some (.sendInteractive (← parseList l) (← fromHex p))
+  | ["int", l, p] => do some (.sendInteractive (← parseList l) (← parsePriv spec p))
   | _ => none
 
-def parseOps (s : String) : Option (List Op) :=
-  if s == "." then some [] else (s.splitOn ",").mapM parseOp
+def parseOps (spec : Bool) (s : String) : Option (List Op) :=
+  if s == "." then some [] else (s.splitOn ",").mapM (parseOp spec)
 
 def rotate {α : Type} (l : List α) (k : Nat) : List α :=
   if l.isEmpty then l else l.drop (k % l.length) ++ l.take (k % l.length)
@@ -137,19 +161,20 @@ open Scrapli Scrapli.Priv C04
 
 def handleC04 : List String → String
   | ["sess", lv, dflt, sec, start, seed, ops] =>
-    match parseLevels lv, fromHex dflt, fromHex sec, fromHex start, seed.toNat?, parseOps ops with
-    | some rs, some dflt, some sec, some start, some seed, some ops =>
+    match parseLevels lv, fromHex dflt, fromHex sec, fromHex start, seed.toNat?, parseOps false ops,
+      parseOps true ops with
+    | some rs, some dflt, some sec, some start, some seed, some ops, some sops =>
       let c := mkCfg rs dflt sec seed
       let payloadOK := ops.all fun op => (opLines op).all fun l => l.isEmpty || isPayload c.L l
       let dom := isTree c.L && recognises c && ambigLeaf c && cmdsOK c.L && asksOK c &&
         (names c.L).contains dflt && (names c.L).contains start && unambB c start && payloadOK
       let s0 : Sess := { dev := { mode := start, awaiting := none, log := [] }, cache := [], tick := 0 }
       let (mes, mms, mcs, s1) := modelRun c s0 ops
-      let (ses, sms, slog) := specRun c start [] ops
+      let (ses, sms, slog) := specRun c start [] sops
       s!"{b2s dom} {showList mes} {showList mms} {showLog s1.dev.log} {showList ses} {showList sms} {showLog slog} {showList mcs}"
-    | _, _, _, _, _, _ => "bad-op"
+    | _, _, _, _, _, _, _ => "bad-op"
   | ["fsess", lv, dflt, sec, start, seed, ops, ftick, rb] =>
-    match parseLevels lv, fromHex dflt, fromHex sec, fromHex start, seed.toNat?, parseOps ops, ftick.toNat? with
+    match parseLevels lv, fromHex dflt, fromHex sec, fromHex start, seed.toNat?, parseOps false ops, ftick.toNat? with
     | some rs, some dflt, some sec, some start, some seed, some ops, some ftick =>
       let c := mkCfg rs dflt sec seed
       let payloadOK := ops.all fun op => (opLines op).all fun l => l.isEmpty || isPayload c.L l
